@@ -16,9 +16,10 @@ func init() {
 			Explanation: "Decides: C03.local (the consensus functions — round, witness, Lamport timestamp, ancestry, strongly-see, fame, round-received, frame/root/block construction, thresholds, median — and everything they call inside the module, stopping at the Store boundary, read none of the process-local fields (topological indexes, consensus-event counter, pending-loaded counter), call no clock / randomness / OS function and none of the view-dependent store getters), " +
 				"C03.order (no ordered output — Frame.Events, Root.Events, Frame.Peers, block transactions — is filled from a map iteration, from a map-ordered helper result or from a local-arrival-ordered queue without a dominating content-keyed sort), " +
 				"C03.memo (each memo cache is filled only by its wrapper with the wrapped function's result for the same arguments, keyed by ALL parameters, and by InsertFrameEvent / Reset), " +
+				"C03.passstate (non-interference: nothing reachable from InsertEvent reads what the consensus passes write — recorded rounds, RoundInfo, memoised round/witness —, since whatever insertion writes into the DAG summary would then depend on how many passes ran between insertions; on the current tree updateAncestorFirstDescendant does: known finding F-C03-2, differential reproduction in /verif/findings/F-C03-2), " +
 				"C03.memotime (a necessary condition of batching-independence: the memoised round / witness predicates — whose value depends on which witnesses DivideRounds has registered so far — are never evaluated on the insertion path, only by the consensus passes), C03.canon (frame and round encoders are canonical). " +
 				"NOT decided: independence from cache size, store type and batching of consensus passes (a quantification over configurations of a dynamic process; LRU-eviction dependence of GetRound is a runtime question)."},
-		Rules: []ruleFunc{c03local, c03order, c03memo, c03memotime, func(p *Prog, r *Report) { r.Rule("C03.canon", 2, "canonical encoders"); canonRule(p, r, "C03.canon") }},
+		Rules: []ruleFunc{c03local, c03order, c03memo, c03memotime, c03passstate, func(p *Prog, r *Report) { r.Rule("C03.canon", 2, "canonical encoders"); canonRule(p, r, "C03.canon") }},
 	})
 	register(&propDef{
 		ID: "C13", NeedCG: true,
@@ -76,7 +77,9 @@ func localStateRule(p *Prog, r *Report, rule string, roots [][3]string, min int)
 			r.Anchor(rule, l[1]+"."+l[2])
 		}
 	}
-	viewDep := map[string]bool{"LastEventFrom": true, "KnownEvents": true, "ConsensusEvents": true, "ConsensusEventsCount": true}
+	// store getters whose answer depends on which events this node happens to hold (RoundWitnesses /
+	// RoundEvents: everything registered so far in a round, undecided and late witnesses included)
+	viewDep := map[string]bool{"LastEventFrom": true, "KnownEvents": true, "ConsensusEvents": true, "ConsensusEventsCount": true, "RoundWitnesses": true, "RoundEvents": true}
 	impure := map[string]bool{"time": true, "math/rand": true, "crypto/rand": true, "os": true, "runtime": true}
 	var fs []*ssa.Function
 	for f := range set {
@@ -766,4 +769,67 @@ func storesIntoField(fn *ssa.Function, fv *types.Var) []*ssa.Store {
 		}
 	}
 	return res
+}
+
+// C03.passstate: non-interference between the consensus passes and insertion. What InsertEvent
+// writes into the DAG summary (the ancestors' firstDescendants, the event's coordinates) feeds
+// strongly-see; if that code READS what the passes wrote (an event's recorded round, the RoundInfo
+// of a round, the round / witness memo), the summary depends on how many passes ran between two
+// insertions, and so may every consensus result. The functions reachable from InsertEvent (up to
+// the Store boundary) must not read Event.round / Event.lamportTimestamp / Event.roundReceived,
+// nor call Store.GetRound or the memoising predicates.
+func c03passstate(p *Prog, r *Report) {
+	const rule = "C03.passstate"
+	r.Rule(rule, 3, "code reachable from InsertEvent reads nothing that the consensus passes write (recorded rounds, RoundInfo, memoised round/witness)")
+	ie := p.Func(HG, "Hashgraph", "InsertEvent")
+	if ie == nil {
+		r.Anchor(rule, "Hashgraph.InsertEvent")
+		return
+	}
+	set := p.reach([]*ssa.Function{ie}, func(f *ssa.Function) bool { return !inModule(f) || isStoreImpl(f) })
+	var passFields []*types.Var
+	for _, n := range []string{"round", "lamportTimestamp", "roundReceived"} {
+		if fv := p.Field(HG, "Event", n); fv != nil {
+			passFields = append(passFields, fv)
+		} else {
+			r.Anchor(rule, "Event."+n)
+		}
+	}
+	var fs []*ssa.Function
+	for f := range set {
+		if inModule(f) && f.Synthetic == "" && !isStoreImpl(f) {
+			fs = append(fs, f)
+		}
+	}
+	sort.Slice(fs, func(i, j int) bool { return fs[i].String() < fs[j].String() })
+	for _, f := range fs {
+		var bad []string
+		for _, fv := range passFields {
+			if in, ok := readsField(f, fv); ok {
+				bad = append(bad, "reads Event."+fv.Name()+" at "+p.ipos(in))
+			}
+		}
+		for _, b := range f.Blocks {
+			for _, in := range b.Instrs {
+				ci, ok := in.(ssa.CallInstruction)
+				if !ok {
+					continue
+				}
+				cf := calleeFunc(ci.Common())
+				if cf == nil {
+					continue
+				}
+				sn := shortName(cf)
+				switch {
+				case storeM("GetRound", "RoundWitnesses", "RoundEvents", "LastRound")(cf):
+					bad = append(bad, "calls Store."+cf.Name()+" at "+p.ipos(in))
+				case sn == HG+".Hashgraph.round" || sn == HG+".Hashgraph.witness" || sn == HG+".Hashgraph.roundReceived" || sn == HG+".Hashgraph.lamportTimestamp":
+					bad = append(bad, "calls the memoised "+cf.Name()+"() at "+p.ipos(in))
+				}
+			}
+		}
+		short := f.Name()
+		r.Check(len(bad) == 0, rule, short+":reads-pass-state", p.pos(f.Pos()), fnName(f), "insertion-time code independent of the consensus passes",
+			"insertion-time code reads state written by the consensus passes ("+strings.Join(bad, "; ")+"): what it writes into the DAG summary depends on how many passes ran between insertions — consensus results can differ between per-event and batched passes")
+	}
 }
